@@ -111,7 +111,9 @@ def _deck_job(args):
     traces = []
     for i, (fid, m) in enumerate(singles):
         form = forms[i % len(forms)] if fid != "none" else None
-        for fm in ([form] if form else list(forms)):
+        # zip members are an ordered list: the order faults are opened in both zip forms (and one directory form)
+        fms = list(forms) if not form else ["path", "stream", "dir"] if fid.startswith("extra:case-twin") else [form]
+        for fm in fms:
             traces.append(api_trace("%s|%s|%s" % (name, fid, fm), "pkg", m, fm, st, scratch))
     for kind in ("notzip", "truncated", "truncated10", "truncated90", "nopath"):
         for fm in ("path", "stream"):
@@ -119,7 +121,7 @@ def _deck_job(args):
                 continue
             traces.append(api_trace("%s|%s|%s" % (name, kind, fm), kind, members, fm, st, scratch))
     rnd = random.Random(seed * 7919 + len(name))
-    gens = [F.f_dangling, F.f_delrels, F.f_nocore, F.f_caseflip, F.f_extra, F.f_rename_slides, F.f_refusals]
+    gens = [F.f_dangling, F.f_delrels, F.f_nocore, F.f_caseflip, F.f_extra, F.f_casetwin, F.f_rename_slides, F.f_refusals]
     for k in range(npairs):
         fid1, m1 = singles[rnd.randrange(1, len(singles))]
         g = gens[rnd.randrange(len(gens))]
